@@ -208,7 +208,32 @@ func runC12(rc *RunCtx) {
 		nShadow++
 		name := fmt.Sprintf("shadow%d", nShadow)
 		childNS := parentNS + childSeg + "/"
-		mr, merr := rootDo(parentNS, "sys/mounts/"+childSeg+"/"+name, logical.UpdateOperation, map[string]any{"type": "rec"})
+		var mr *logical.Response
+		var merr error
+		viaRemount := tp.Pick(2) == 1
+		if viaRemount {
+			// ... or an existing mount of the parent moved there (sys/remount has its own conflict check)
+			when += ", by remount"
+			if r, err := rootDo(parentNS, "sys/mounts/tmp"+name, logical.UpdateOperation, map[string]any{"type": "rec"}); err != nil || (r != nil && r.IsError()) {
+				return true
+			}
+			mr, merr = rootDo(parentNS, "sys/remount", logical.UpdateOperation, map[string]any{"from": "tmp" + name, "to": childSeg + "/" + name})
+			if merr == nil && mr != nil && !mr.IsError() {
+				id := fmt.Sprint(mr.Data["migration_id"])
+				for w := 0; w < 20; w++ {
+					s.SetControlled()
+					s.Drain(time.Second, time.Second)
+					s.PassThrough()
+					if st, err := rootDo(parentNS, "sys/remount/status/"+id, logical.ReadOperation, nil); err == nil && st != nil {
+						if js, _ := json.Marshal(st.Data["migration_info"]); strings.Contains(string(js), `"status":"success"`) || strings.Contains(string(js), `"status":"failure"`) {
+							break
+						}
+					}
+				}
+			}
+		} else {
+			mr, merr = rootDo(parentNS, "sys/mounts/"+childSeg+"/"+name, logical.UpdateOperation, map[string]any{"type": "rec"})
+		}
 		accepted := merr == nil && (mr == nil || !mr.IsError())
 		if accepted {
 			s.Probe("mount_into_child_namespace_accepted")
@@ -220,7 +245,37 @@ func runC12(rc *RunCtx) {
 			return true
 		}
 		before := len(rec.Snapshot())
+		opsBefore := len(disk.Ops)
 		r, _ := h.Do("shadow", Req{NS: childNS, Op: logical.UpdateOperation, Path: name + "/data/k", Token: childTok, Data: map[string]any{"value": "written-by-a-token-of-" + childNS}})
+		// (sys/remount with a destination inside a child namespace MOVES the mount
+		// into that namespace - by design; then the request is served from the
+		// child's own storage, which is what is looked at)
+		childPrefix := ""
+		for _, x := range mounts {
+			if x.ns == childNS {
+				childPrefix = x.prefix[:strings.Index(x.prefix, "logical/")]
+			}
+		}
+		inChild, outside := false, ""
+		for _, o := range disk.Ops[opsBefore:] {
+			if strings.HasPrefix(o.ReqID, "shadow-") && strings.Contains(o.Key, "logical/") && (o.Op == "put" || o.Op == "tx-put") {
+				if childPrefix != "" && strings.HasPrefix(o.Key, childPrefix) {
+					inChild = true
+				} else {
+					outside = o.Key
+				}
+			}
+		}
+		if viaRemount && (outside == "" || childPrefix == "") {
+			if inChild {
+				s.Probe("remount_moved_mount_into_child_namespace")
+			}
+			if accepted {
+				rootDo(childNS, "sys/mounts/"+name, logical.DeleteOperation, nil)
+			}
+			rootDo(parentNS, "sys/mounts/tmp"+name, logical.DeleteOperation, nil)
+			return true
+		}
 		for _, e := range rec.Snapshot()[before:] {
 			if e.Kind == "handler" {
 				viol("token-authorised-outside-its-namespace", map[string]any{"target_ns": parentNS, "via": "mount reaching into a child namespace", "when": when},
@@ -230,6 +285,9 @@ func runC12(rc *RunCtx) {
 		}
 		if accepted {
 			rootDo(parentNS, "sys/mounts/"+childSeg+"/"+name, logical.DeleteOperation, nil)
+		}
+		if viaRemount {
+			rootDo(parentNS, "sys/mounts/tmp"+name, logical.DeleteOperation, nil)
 		}
 		return true
 	}
